@@ -51,7 +51,9 @@ def cms(repo, chk):
     hashf = repo.func(CMS, 'cms_hash')
 
     # binding of _add's parameters at the call site in add()
-    cs = [c for c in calls(add) if isinstance(c.func, ast.Attribute) and c.func.attr == '_add']
+    # (the update routine may be called as CountMinSketch._add / self._add or, when it lives at module level, by its own name)
+    own_names = {q for q, f in m.funcs.items() if f.node is add_s.node and '.' not in q}
+    cs = [c for c in calls(add) if (isinstance(c.func, ast.Attribute) and c.func.attr == '_add') or (isinstance(c.func, ast.Name) and c.func.id in own_names)]
     if len(cs) != 1:
         chk.unsure('C15.1', 'R6', add.site(), 'CountMinSketch._add(...)', f'{len(cs)} calls of _add in add(), expected 1')
         return
@@ -99,9 +101,11 @@ def cms(repo, chk):
         dv = f.node.args.defaults
         pn = f.params
         dd = dict(zip(pn[len(pn) - len(dv):], dv))
-        k = [x for x in dd if x == 'delta']
+        # the weight parameter by its role: the sixth parameter of the update routine, the second one (after the item) of add / batch_add
+        role = pn[5] if f is add_s and len(pn) > 5 else (([q for q in pn if q != 'self'] + [None, None])[1])
+        k = [x for x in dd if x == role]
         okd = bool(k) and isinstance(dd[k[0]], ast.Constant) and dd[k[0]].value == 1
-        chk.expect(okd, 'C15.2f', 'R8', f.site(), f'{f.qualname}(..., delta={ast.unparse(dd[k[0]]) if k else None})', 'default weight of an update is 1', 'the default weight (delta) of an update must be 1: otherwise add(x) accumulates a weight other than the one occurrence it stands for')
+        chk.expect(okd, 'C15.2f', 'R8', f.site(), f'{f.qualname}(..., {role}={ast.unparse(dd[k[0]]) if k else None})', 'default weight of an update is 1', 'the default weight (delta) of an update must be 1: otherwise add(x) accumulates a weight other than the one occurrence it stands for')
     # query
     qx = [q for q in query.params if q != 'self'][0]
     rets = [n for n in own_nodes(query.node) if isinstance(n, ast.Return)]
